@@ -12,6 +12,7 @@ import Dawn.Model.Build
     gc <preferIndex>                                   → ok R=… G=… T=… I=…
     path <kind hex> <pkg hex> <name hex>               → <dir hex> <file hex>      (targetInfoPath)
     sum <d n:c,…> <d n:c,…>                            → eq | ne                    (dirSum: equal sums?)
+    opts <prev always> <prev dry> nil | <always> <dry>  → <always> <dry>             (RunOptions.apply)
 
   U/V/S/F: labels with a TargetUpToDate / TargetEvaluating / TargetSucceeded / TargetFailed event (sorted).
   R: the non-empty records, `label{dep:stamp.runs,…|stamp|rerun|runs}`; a stamp is `-` (empty) or `e<i>`, the
@@ -177,6 +178,12 @@ def step (s : DSt) (line : String) : DSt × String :=
       let (d, f) := targetInfoPath ⟨k.toList, p.toList, n.toList⟩
       (s, s!"{hexBytes d} {hexBytes f}")
     | _, _, _ => (s, "bad-input")
+  | ["opts", pa, pd, "nil"] =>
+    let f := applyOptions ⟨flag pa, flag pd⟩ none
+    (s, s!"{if f.always then 1 else 0} {if f.dry then 1 else 0}")
+  | ["opts", pa, pd, a, d] =>
+    let f := applyOptions ⟨flag pa, flag pd⟩ (some ⟨flag a, flag d⟩)
+    (s, s!"{if f.always then 1 else 0} {if f.dry then 1 else 0}")
   | ["sum", "d", a, "d", b] =>
     match parseEntries a, parseEntries b with
     | some a, some b => (s, if canon (.dir a) == canon (.dir b) then "eq" else "ne")
